@@ -195,42 +195,42 @@ Proof.
   rewrite !in_app_iff.
   apply in_app_or in Hin. destruct Hin as [Hin|Hin].
   2:{ do 7 right. left. unfold lP2. fold w occ pawns. fold m1. fold m2.
-         apply (plainTo_sub m2 _ _ m H2); [|exact Hin]. intros t Hb. rewrite N.land_spec in Hb. apply andb_true_iff in Hb. destruct Hb as [Hb _].
+         refine (plainTo_sub m2 _ _ m H2 _ Hin). intros t Hb. rewrite N.land_spec in Hb. apply andb_true_iff in Hb. destruct Hb as [Hb _].
          apply (Hm2sub _ t (fun s Hs => Hm1sub _ s (HandnP _) Hs) Hb). }
   apply in_app_or in Hin. destruct Hin as [Hin|Hin].
   2:{ (* normal checks *) do 6 right. left. unfold lP1. fold w occ pawns. fold m1.
-         apply (pawnToF_sub w m1 _ _ m H1); [|exact Hin]. intros t Hb. rewrite N.land_spec in Hb. apply andb_true_iff in Hb. destruct Hb as [Hb _].
+         refine (pawnToF_sub w m1 _ _ m H1 _ Hin). intros t Hb. rewrite N.land_spec in Hb. apply andb_true_iff in Hb. destruct Hb as [Hb _].
          apply (Hm1sub _ t (HandnP _) Hb). }
   apply in_app_or in Hin. destruct Hin as [Hin|Hin].
   2:{ do 7 right. left. unfold lP2. fold w occ pawns. fold m1. fold m2.
-         apply (plainTo_sub m2 _ _ m H2); [|exact Hin]. intros t Hb. apply (Hm2sub _ t (fun s Hs => Hm1sub _ s (HandP _) Hs) Hb). }
+         refine (plainTo_sub m2 _ _ m H2 _ Hin). intros t Hb. apply (Hm2sub _ t (fun s Hs => Hm1sub _ s (HandP _) Hs) Hb). }
   apply in_app_or in Hin. destruct Hin as [Hin|Hin].
   2:{ (* pushes of discovered / 7th-rank pawns *) do 6 right. left. unfold lP1. fold w occ pawns. fold m1.
-         apply (pawnToF_sub w m1 _ _ m H1); [|exact Hin]. intros t Hb. apply (Hm1sub _ t (HandP _) Hb). }
+         refine (pawnToF_sub w m1 _ _ m H1 _ Hin). intros t Hb. apply (Hm1sub _ t (HandP _) Hb). }
   apply in_app_or in Hin. destruct Hin as [Hin|Hin].
   2:{ (* captures h *) do 9 right. unfold lP4. fold w occ pawns enemy. apply (pawnToF_sub w _ _ _ m H4 (fun t H => H) Hin). }
   apply in_app_or in Hin. destruct Hin as [Hin|Hin].
   2:{ (* captures a *) do 8 right. left. unfold lP3. fold w occ pawns enemy. apply (pawnToF_sub w _ _ _ m H3 (fun t H => H) Hin). }
   apply in_app_or in Hin. destruct Hin as [Hin|Hin].
-  2:{ (* knight *) right. right. right. right. right. left. unfold lN. fold w. apply (loopMoves_sub _ (gN p) _ m (Hbb _ IN) HgN); [|exact Hin].
+  2:{ (* knight *) right. right. right. right. right. left. unfold lN. fold w. refine (loopMoves_sub _ (gN p) _ m (Hbb _ IN) HgN _ Hin).
          intros sq t Hs Hb. unfold gN. fold own. destruct (N.land disc (bit sq) =? 0); [rewrite N.land_spec in Hb; apply andb_true_iff in Hb; apply Hb | exact Hb]. }
   apply in_app_or in Hin. destruct Hin as [Hin|Hin].
   2:{ (* castling *) right. right. right. right. left. exact Hin. }
   apply in_app_or in Hin. destruct Hin as [Hin|Hin].
   2:{ (* king *) right. right. right. left. unfold lK. fold w own.
-         apply (movesTo_sub _ (andn (kingAttacks (kingSq p w)) own) _ m (ldiff_lt _ _ _ (kingAttacks_lt _))); [|exact Hin].
+         refine (movesTo_sub _ (andn (kingAttacks (kingSq p w)) own) _ m (ldiff_lt _ _ _ (kingAttacks_lt _)) _ Hin).
          intros t Hb. destruct (N.land disc (bit (kingSq p w)) =? 0); [|exact Hb].
          rewrite N.land_spec in Hb. apply andb_true_iff in Hb. destruct Hb as [A B]. unfold andn. rewrite N.ldiff_spec, A, (enemy_not_own t B). reflexivity. }
   apply in_app_or in Hin. destruct Hin as [Hin|Hin].
-  2:{ (* bishop *) right. right. left. unfold lB. fold w. apply (loopMoves_sub _ (gB p) _ m (Hbb _ IB) HgB); [|exact Hin].
+  2:{ (* bishop *) right. right. left. unfold lB. fold w. refine (loopMoves_sub _ (gB p) _ m (Hbb _ IB) HgB _ Hin).
          intros sq t Hs Hb. unfold gB. fold occ own. unfold andn in *. rewrite N.ldiff_spec in *. apply andb_true_iff in Hb. destruct Hb as [A B].
-         rewrite B, andb_true_r. destruct (N.land disc (bit sq) =? 0); [rewrite N.land_spec in A; apply andb_true_iff in A; apply A | exact A]. }
+         apply andb_true_iff. split; [|exact B]. destruct (N.land disc (bit sq) =? 0); [rewrite N.land_spec in A; apply andb_true_iff in A; apply A | exact A]. }
   apply in_app_or in Hin. destruct Hin as [Hin|Hin].
-  2:{ (* rook *) right. left. unfold lR. fold w. apply (loopMoves_sub _ (gR p) _ m (Hbb _ IR) HgR); [|exact Hin].
+  2:{ (* rook *) right. left. unfold lR. fold w. refine (loopMoves_sub _ (gR p) _ m (Hbb _ IR) HgR _ Hin).
          intros sq t Hs Hb. unfold gR. fold occ own. unfold andn in *. rewrite N.ldiff_spec in *. apply andb_true_iff in Hb. destruct Hb as [A B].
-         rewrite B, andb_true_r. destruct (N.land disc (bit sq) =? 0); [rewrite N.land_spec in A; apply andb_true_iff in A; apply A | exact A]. }
-  (* queen *) left. unfold lQ. fold w. apply (loopMoves_sub _ (gQ p) _ m (Hbb _ IQ) HgQ); [|exact Hin].
+         apply andb_true_iff. split; [|exact B]. destruct (N.land disc (bit sq) =? 0); [rewrite N.land_spec in A; apply andb_true_iff in A; apply A | exact A]. }
+  (* queen *) left. unfold lQ. fold w. refine (loopMoves_sub _ (gQ p) _ m (Hbb _ IQ) HgQ _ Hin).
     intros sq t Hs Hb. unfold gQ. fold occ own. unfold andn in *. rewrite N.ldiff_spec in *. apply andb_true_iff in Hb. destruct Hb as [A B].
-    rewrite B, andb_true_r. destruct (N.land disc (bit sq) =? 0); [rewrite N.land_spec in A; apply andb_true_iff in A; apply A | exact A].
+    apply andb_true_iff. split; [|exact B]. destruct (N.land disc (bit sq) =? 0); [rewrite N.land_spec in A; apply andb_true_iff in A; apply A | exact A].
 Qed.
 End CapChecks.
